@@ -26,7 +26,8 @@
 From CG Require Import Model.Dfa Model.Tables Model.Glob Model.BashSem Model.Driver.
 From CG Require Import Base.Prelude Model.Ast Model.Check Spec.Rx Spec.Meaning Spec.KnownC01 Spec.Domain
      Proofs.RxFacts Proofs.MeaningFacts Proofs.MeaningLevels Proofs.DomainFacts.
-From CG Require Import Proofs.TreeFacts Proofs.GlobFacts Proofs.StripFacts Proofs.BashMeaningLit Proofs.C01Layers.
+From CG Require Import Proofs.TreeFacts Proofs.GlobFacts Proofs.StripFacts Proofs.BashMeaningLit Proofs.LangBridge Proofs.C01Layers.
+From CG Require Import Spec.Invocations.
 
 (** The full statement, over an abstract interpreter [script_run] of the script emitted for the
     validated grammar [e] ([None] = exit status 1, [Some reply] = exit status 0 with COMPREPLY). *)
@@ -210,6 +211,83 @@ Example ex_C01_literal_layer_inhabited :
   end.
 Proof. vm_compute. repeat split; reflexivity. Qed.
 Print Assumptions ex_C01_literal_layer_inhabited.
+
+(** *** C01_bash_meaning, layer (b): leaves = literals, external commands, undefined nonterminals
+    (no within-word expressions).  Same statement as layer (a), for command lines on which no
+    two different commands accept the same word ([ambiguous_run = false]); [Henv] says that the
+    two environments describe the same commands (command number [cid] of the script prints the
+    candidates the specification attributes to that command text).  The invocation log is left
+    existential (it is C17's subject). *)
+Theorem C01_bash_meaning_toplevel :
+  forall pick fuel v c om os nd a (benv : BashSem.env) (en : Meaning.env) ws p,
+    toplevel_tree (v_expr v) = true -> alts_nonempty (v_expr v) = true ->
+    compile_valid pick fuel v = Ok c ->
+    all_tables Bash c om os = Ok (nd, a) -> NoDup om -> valid_literal_order (c_main c) om = true ->
+    C01_domain (v_expr v) = true ->
+    BashSem.e_ignore_case benv = false -> BashSem.e_wordbreaks benv = Meaning.e_wordbreaks en ->
+    breaks_ok (BashSem.e_wordbreaks benv) = true -> plain p = true -> printable_str p = true ->
+    (forall cm cid, Tables.index_of cm (a_commands a) = Some cid ->
+                    spec_candidates (cmd_output benv cid) = candidates en cm) ->
+    ambiguous_run en (start (v_expr v)) ws = false ->
+    match complete (v_expr v) en ws p with
+    | None => exists log, run_from Repaired (d_start (c_main c)) a benv ws p = Ok (mkresult 1 [] log)
+    | Some (req, al) =>
+        exists reply log, run_from Repaired (d_start (c_main c)) a benv ws p = Ok (mkresult 0 reply log)
+                          /\ (forall x, In x reply <-> In x req) /\ (forall x, In x al <-> In x req)
+    end.
+Proof. exact bash_meaning_toplevel. Qed.
+Check C01_bash_meaning_toplevel :
+  forall pick fuel v c om os nd a (benv : BashSem.env) (en : Meaning.env) ws p,
+    toplevel_tree (v_expr v) = true -> alts_nonempty (v_expr v) = true ->
+    compile_valid pick fuel v = Ok c ->
+    all_tables Bash c om os = Ok (nd, a) -> NoDup om -> valid_literal_order (c_main c) om = true ->
+    C01_domain (v_expr v) = true ->
+    BashSem.e_ignore_case benv = false -> BashSem.e_wordbreaks benv = Meaning.e_wordbreaks en ->
+    breaks_ok (BashSem.e_wordbreaks benv) = true -> plain p = true -> printable_str p = true ->
+    (forall cm cid, Tables.index_of cm (a_commands a) = Some cid ->
+                    spec_candidates (cmd_output benv cid) = candidates en cm) ->
+    ambiguous_run en (start (v_expr v)) ws = false ->
+    match complete (v_expr v) en ws p with
+    | None => exists log, run_from Repaired (d_start (c_main c)) a benv ws p = Ok (mkresult 1 [] log)
+    | Some (req, al) =>
+        exists reply log, run_from Repaired (d_start (c_main c)) a benv ws p = Ok (mkresult 0 reply log)
+                          /\ (forall x, In x reply <-> In x req) /\ (forall x, In x al <-> In x req)
+    end.
+Print Assumptions C01_bash_meaning_toplevel.
+
+(** Inhabited: [cmd (add || {{{probe}}}) <U> end;] through the whole model pipeline; the probe prints
+    "P1" and "aQ<TAB>descr". *)
+Definition ext_e : expr :=
+  Sequence [Fallback [Terminal "add" None 0 exl_sp; Command "probe" false 1 exl_sp] exl_sp;
+            NontermRef "U" 0 exl_sp; Terminal "end" None 0 exl_sp] exl_sp.
+Definition ext_v := mkvalid "cmd" ext_e [] [] [].
+Definition ext_om := [("end", ""); ("add", "")]%string.
+Definition ext_nl := String (ch 10) EmptyString.
+Definition ext_out := ("P1" ++ ext_nl ++ "aQ" ++ String (ch 9) "descr" ++ ext_nl)%string.
+Definition ext_benv := BashSem.mkenv bash_default_wordbreaks [(0, ext_out)] false.
+Definition ext_en := Meaning.mkenv bash_default_wordbreaks [("probe", ["P1"; ("aQ" ++ String (ch 9) "descr")%string])]%string.
+
+Example ex_C01_toplevel_layer_inhabited :
+  match compile_valid (fun _ _ => O) 100 ext_v with
+  | Ok c =>
+      match all_tables Bash c ext_om [] with
+      | Ok (nd, a) =>
+          toplevel_tree ext_e = true /\ alts_nonempty ext_e = true /\ valid_literal_order (c_main c) ext_om = true
+          /\ C01_domain ext_e = true /\ a_commands a = ["probe"]%string
+          /\ spec_candidates (cmd_output ext_benv 0) = candidates ext_en "probe"
+          /\ ambiguous_run ext_en (start ext_e) ["P1"; "x"]%string = false
+          /\ run_from Repaired (d_start (c_main c)) a ext_benv [] "P" = Ok (mkresult 0 ["P1"] [(0, "P", "")])
+          /\ complete ext_e ext_en [] "P" = Some (["P1"], ["P1"])
+          /\ run_from Repaired (d_start (c_main c)) a ext_benv ["P1"; "x"] "" = Ok (mkresult 0 ["end "] [(0, "", "")])
+          /\ complete ext_e ext_en ["P1"; "x"] "" = Some (["end "], ["end "])
+          /\ run_from Repaired (d_start (c_main c)) a ext_benv ["zz"] "" = Ok (mkresult 1 [] [(0, "", "")])
+          /\ complete ext_e ext_en ["zz"] "" = None
+      | _ => False
+      end
+  | _ => False
+  end.
+Proof. vm_compute. repeat split; reflexivity. Qed.
+Print Assumptions ex_C01_toplevel_layer_inhabited.
 
 (** Non-vacuity: a grammar with two || levels, a within-word expression and a command is inside
     the domain, and the specification computes the answers one expects from the README. *)
